@@ -3,7 +3,7 @@
   per call" of C09.
 -/
 import MbVerif.Proofs.LogCount
-import MbVerif.Props.C09
+import MbVerif.Proofs.SignalRound
 import MbVerif.Spec.C01
 
 namespace Mb
